@@ -293,6 +293,7 @@ structure EncHdr where
   ops : List Op              -- all calls
   encHdr : Enc               -- coder context when clt_compute_allocation is called
   enc : Enc                  -- coder context afterwards
+  rest : List Int            -- decisions not yet used (those of the band data)
   deriving Repr
 
 /-- the allocation's coder calls as range-coder operations -/
@@ -332,7 +333,7 @@ def encTail (cfg : EncCfg) (sil size1 : Nat) (pf : PfOut) (opsPf : List Op) (isT
     .ok { silence := sil, pf := pf, isTransient := isT, intra := intra, coarse := qs, coarseDec := qds, tfRes := t.1,
           tfRaw := t.2.2.1, tfSelect := t.2.1, spread := sp.1, offsets := dy.1, totalBoost := dy.2.1, trim := tr.1,
           size := vb.1, bits := bits0 - acr, antiCollapseRsv := acr, allocInp := inp, alloc := o, opsPf := opsPf, opsHdr := vb.2.ops,
-          ops := se.ops ++ o.ops.map allocOp, encHdr := vb.2.e, enc := encRun se.e (o.ops.map allocOp) }
+          ops := se.ops ++ o.ops.map allocOp, encHdr := vb.2.e, enc := encRun se.e (o.ops.map allocOp), rest := se.ds }
   | .err e => .err e
   | .oob => .oob
   | .abort => .abort
